@@ -66,7 +66,10 @@ def run(tier):
         run.errors.append(f"Untranslatable: {e}")
     run.extra["smt_queries_nontrivial"] = run.extra.get("smt_queries", 0)
     # (b) the exception path through real constraint objects and the real Evaluator
-    run.run_conditions(conds_for(RAISING_PROGS, tier), conformance_harnesses=["h_constraints.py"])
+    conds = conds_for(RAISING_PROGS, tier)
+    for c in conds[2:]:
+        c.twin = None
+    run.run_conditions(conds, conformance_harnesses=["h_constraints.py"])
     run.encoded += ENCODED
     run.extra["source_sha256_16"] = source_fingerprint(FILES + ["fandango/constraints/fitness.py"])
     run.bounds = {"threshold query": f"shapes (h, r) in {shapes}; per-constraint totals <= 1000 via lemma L1; soft constraints 0",
